@@ -1,0 +1,48 @@
+//go:build verif
+
+// Safety-sweep contracts (no explicit panic, index/slice in range, allocation
+// sizes non-negative, wire-decoded pointers checked before use) for functions
+// that need no precondition. Generated from a zero-annotation sweep; checked by
+// /verif/govc. Comment-only file.
+package plugin
+
+//@ func plugin.DeviceModule.Receive
+//@   props C10(sweep)
+//@   sweep bounds,panic,make,nilmem,div
+
+//@ func plugin.DeviceModule.Yield
+//@   props C10(sweep)
+//@   sweep bounds,panic,make,nilmem,div
+
+//@ func plugin.OwnerModule.HandleInfo
+//@   props C10(sweep)
+//@   sweep bounds,panic,make,nilmem,div
+
+//@ func plugin.protocol.DecodeValue
+//@   props C10(sweep)
+//@   sweep bounds,panic,make,nilmem,div
+
+//@ func plugin.protocol.ModuleName
+//@   props C10(sweep)
+//@   sweep bounds,panic,make,nilmem,div
+
+//@ func plugin.protocol.Peek
+//@   props C10(sweep)
+//@   sweep bounds,panic,make,nilmem,div
+
+//@ func plugin.protocol.Recv
+//@   props C10(sweep)
+//@   sweep bounds,panic,make,nilmem,div
+
+//@ func plugin.protocol.Send
+//@   props C10(sweep)
+//@   sweep bounds,panic,make,nilmem,div
+
+//@ func plugin.protocol.encodeArray
+//@   props C10(sweep)
+//@   sweep bounds,panic,make,nilmem,div
+
+//@ func plugin.protocol.encodeMap
+//@   props C10(sweep)
+//@   sweep bounds,panic,make,nilmem,div
+
